@@ -56,9 +56,13 @@ func verifDo(req *http.Request) (*http.Response, error) {
 		vFailedAt[first] = true
 		return nil, errors.New("transport error")
 	}
-	out := make([]requests.Response, len(ins))
+	out := make([]map[string]interface{}, len(ins))
+	emptyErrs := vEmptyErrs
 	for i, r := range ins {
-		out[i] = requests.Response{Data: map[string]interface{}{"tag": r.Query}}
+		out[i] = map[string]interface{}{"data": map[string]interface{}{"tag": r.Query}}
+		if emptyErrs {
+			out[i]["errors"] = []interface{}{} // legal: a healthy answer with an empty errors list
+		}
 	}
 	b, _ := json.Marshal(out)
 	return &http.Response{StatusCode: 200, Body: &vBody{b}}, nil
@@ -66,7 +70,10 @@ func verifDo(req *http.Request) (*http.Response, error) {
 
 func verifRequestBody(r *http.Request) []byte
 
+var vEmptyErrs bool
+
 func VerifQuery() {
+	vEmptyErrs = verifBool("emptyerrors") // every healthy answer of this run carries "errors": [] or none does
 	N := verifChoice("N", verifParam("nmax", 3)+1)
 	m := verifInt("m", 1, verifParam("mmax", 2))
 	q := &MultiOpQueryer{url: "u", client: &http.Client{}, maxBatchSize: m}
